@@ -545,6 +545,10 @@ public:
     if (graphidToN_.size() < graphNode + 1)
       graphidToN_.resize(graphNode + 1);
 
+    // a node has one object at most: a former one is forgotten
+    if (graphidToN_.at(graphNode) != 00)
+      NToGraphid_.erase(graphidToN_.at(graphNode));
+
     // now storing the node
     graphidToN_.at(graphNode) = nodeObject;
     NToGraphid_[nodeObject] = graphNode;
@@ -565,6 +569,10 @@ public:
     // the ID 3, the vector must be of size 4: {0,1,2,3} (size = 4)
     if (graphidToE_.size() < graphEdge + 1)
       graphidToE_.resize(graphEdge + 1);
+
+    // an edge has one object at most: a former one is forgotten
+    if (graphidToE_.at(graphEdge) != 00)
+      EToGraphid_.erase(graphidToE_.at(graphEdge));
 
     // now storing the edge
     graphidToE_.at(graphEdge) = edgeObject;
